@@ -196,6 +196,9 @@ EXPORT errno_t _wcsfc_s_chk(wchar_t *restrict dest, rsize_t dmax,
                     }
 #endif
                     d = _decomp_s(tmpd, 8, cp1, false);
+                    /* room for the expansion and the terminator? */
+                    if (unlikely(dmax <= (rsize_t)(d ? d : 1)))
+                        goto too_small;
                     if (d) { /* decomp. max 4 */
                         memcpy(dest, tmpd, d * sizeof(wchar_t));
                         dest += d;
@@ -205,6 +208,9 @@ EXPORT errno_t _wcsfc_s_chk(wchar_t *restrict dest, rsize_t dmax,
                     }
                 }
             } else {
+                /* room for the expansion and the terminator? */
+                if (unlikely(dmax <= (rsize_t)c))
+                    goto too_small;
                 memcpy(dest, tmp, c * sizeof(wchar_t));
                 dest += c;
                 dmax -= c;
